@@ -112,13 +112,13 @@ func runE2E(c *rig.Ctx, cs Case) (out e2eOut, f *failure) {
 	if panicked {
 		return out, &failure{"judge", "c06.panic", "the gateway panicked: " + msg, nil, nil}
 	}
+	if out.Bad != "" { // from the quiet sequential phase: judged strictly
+		return out, &failure{"judge", "c06.e2e.not-429", out.Bad, out, nil}
+	}
 	if rigErr != "" {
 		c.Count("e2e:rig-hiccup-skipped")
 		c.Note("e2e rig: %s", rigErr)
 		return out, nil
-	}
-	if out.Bad != "" {
-		return out, &failure{"judge", "c06.e2e.not-429", out.Bad, out, nil}
 	}
 	admitted := int64(out.Status[200])
 	if admitted != out.Forwarded {
